@@ -354,6 +354,10 @@ def oracle(c, got):
         return None
     a = c.args
     op = a[0]
+    if got.startswith('!harness') or got == '!timeout':
+        return 'harness: ' + got
+    if op in ('netstr', 'str_rt') and got.startswith('!'):
+        return 'IPNetwork((%d, %d), version=%d) / str() raised %s' % (a[2], a[3], a[1], got)
     if op == 'spell':
         _, ver, v, p, form, explicit, flags, implicit, s = a
         w = W[ver]
